@@ -440,6 +440,9 @@ class ExprCanon(ast.NodeTransformer):
     def visit_Call(self, node):
         self.generic_visit(node)
         f0 = node.func
+        # typing.cast(T, e) is e
+        if len(node.args) == 2 and not node.keywords and ((isinstance(f0, ast.Name) and f0.id in _CAST_NAMES[0]) or (isinstance(f0, ast.Attribute) and f0.attr == "cast" and isinstance(f0.value, ast.Name) and f0.value.id in _CAST_NAMES[1])):
+            return node.args[1]
         # f(a, *(b, c)) -> f(a, b, c)
         if any(isinstance(x, ast.Starred) and isinstance(x.value, (ast.Tuple, ast.List)) and not any(isinstance(y, ast.Starred) for y in x.value.elts) for x in node.args):
             flat_args = []
@@ -1179,6 +1182,10 @@ def canon_block(stmts):
     res = [_bool_if_deep(s) for s in res]
     if len(res) > 1:
         res = [s for s in res if not isinstance(s, ast.Pass)] or res[:1]
+    if len(res) > 1 and any(isinstance(x, ast.Assign) and isinstance(x.value, ast.Call) and isinstance(x.value.func, ast.Attribute) and x.value.func.attr == "get" and len(x.value.args) == 2 for x in res):
+        res2 = _sentinel_lookup(res)
+        if len(res2) != len(res):
+            res = [swap_if(x) if isinstance(x, ast.If) else x for x in res2]
     return res
 
 
@@ -2083,6 +2090,16 @@ def _merge_nested_if(s):
         inner, t = s.body[0], s.test
         vals = (list(t.values) if isinstance(t, ast.BoolOp) and isinstance(t.op, ast.And) else [t]) + (list(inner.test.values) if isinstance(inner.test, ast.BoolOp) and isinstance(inner.test.op, ast.And) else [inner.test])
         s = _loc(ast.If(test=_loc(ast.BoolOp(op=ast.And(), values=vals), t), body=inner.body, orelse=[]), s)
+    # if a: (if b: X else: Y) else: X  ->  if a and not b: Y else: X      (.. else: Y) else: Y -> if a and b: X else: Y
+    if isinstance(s, ast.If) and s.orelse and len(s.body) == 1 and isinstance(s.body[0], ast.If) and s.body[0].orelse and not any(isinstance(n, ast.NamedExpr) for n in ast.walk(s.body[0].test)) and not any(isinstance(n, ast.NamedExpr) for n in ast.walk(s.test)):
+        inner, t = s.body[0], s.test
+        outer_else = "".join(_dump(x) for x in s.orelse)
+        conj = lambda b: _loc(ast.BoolOp(op=ast.And(), values=(list(t.values) if isinstance(t, ast.BoolOp) and isinstance(t.op, ast.And) else [t]) + [b]), t)
+        if outer_else == "".join(_dump(x) for x in inner.body):
+            nb = ExprCanon().visit(negate(copy.deepcopy(inner.test)))
+            s = _loc(ast.If(test=ExprCanon().visit(conj(nb)), body=inner.orelse, orelse=s.orelse), s)
+        elif outer_else == "".join(_dump(x) for x in inner.orelse):
+            s = _loc(ast.If(test=ExprCanon().visit(conj(inner.test)), body=inner.body, orelse=s.orelse), s)
     return s
 
 
@@ -2143,7 +2160,97 @@ def canon_stmt(s):
     return _canon_stmt(s)
 
 
+def _subst_pure_walrus(fnode):
+    """`(x := E)` with E a plain lookup (names, constant subscripts, attributes) of things the function never rebinds or
+    stores into, x bound nowhere else: the walrus is E and every read of x is E (reading it again yields the same
+    object).  The canonical form of the other direction, `x = E` as a statement, is the same after the inlining of
+    single-use temporaries and the reuse of bound subscripts."""
+    def own(n):
+        stack = list(ast.iter_child_nodes(n))
+        while stack:
+            c = stack.pop()
+            yield c
+            if not isinstance(c, (ast.FunctionDef, ast.AsyncFunctionDef, ast.Lambda, ast.ClassDef)):
+                stack.extend(ast.iter_child_nodes(c))
+
+    nodes = list(own(fnode))
+    walrus = [n for n in nodes if isinstance(n, ast.NamedExpr) and isinstance(n.target, ast.Name)]
+    if not walrus:
+        return False
+    stores = {}
+    for n in nodes:
+        if isinstance(n, ast.Name) and isinstance(n.ctx, (ast.Store, ast.Del)):
+            stores[n.id] = stores.get(n.id, 0) + 1
+    params = {a.arg for a in fnode.args.args + fnode.args.kwonlyargs + fnode.args.posonlyargs} | ({fnode.args.vararg.arg} if fnode.args.vararg else set()) | ({fnode.args.kwarg.arg} if fnode.args.kwarg else set())
+    into = {n.value.id for n in nodes if isinstance(n, (ast.Subscript, ast.Attribute)) and isinstance(n.ctx, (ast.Store, ast.Del)) and isinstance(n.value, ast.Name)}
+    mutcalls = {n.func.value.id for n in nodes if isinstance(n, ast.Call) and isinstance(n.func, ast.Attribute) and isinstance(n.func.value, ast.Name) and n.func.attr in ("update", "pop", "clear", "setdefault", "popitem", "append", "extend", "insert", "remove", "sort", "reverse")}
+    closure = _CLOSURE_NAMES[-1] if _CLOSURE_NAMES else set()
+
+    loops_of = {}
+    for n in nodes:
+        if isinstance(n, ast.For):
+            for t_ in ast.walk(n.target):
+                if isinstance(t_, ast.Name):
+                    loops_of.setdefault(t_.id, []).append(n)
+    scope = [None]  # the loop inside whose body the walrus and every read of its target must lie
+
+    def plain(e):
+        if isinstance(e, ast.Name):
+            if e.id in into or e.id in mutcalls:
+                return False
+            if e.id not in stores:
+                return True
+            # a loop variable: constant within one iteration of the only loop that binds it
+            lp = loops_of.get(e.id, [])
+            if len(lp) == 1 and stores.get(e.id, 0) == sum(1 for t_ in ast.walk(lp[0].target) if isinstance(t_, ast.Name) and t_.id == e.id) and scope[0] in (None, lp[0]):
+                scope[0] = lp[0]
+                return True
+            return False
+        if isinstance(e, ast.Subscript):
+            return isinstance(e.slice, ast.Constant) and plain(e.value)
+        if isinstance(e, ast.Attribute):
+            return plain(e.value) and not (isinstance(e.value, ast.Name) and e.value.id == "self")
+        return False
+
+    done = False
+    for w in walrus:
+        x = w.target.id
+        scope[0] = None
+        if stores.get(x, 0) != 1 or x in params or x in closure or not plain(w.value) or isinstance(w.value, ast.Name):
+            continue
+        if scope[0] is not None:
+            inside = {id(n) for st in scope[0].body for n in ast.walk(st)}
+            if id(w) not in inside or any(isinstance(n, ast.Name) and n.id == x and id(n) not in inside for n in nodes):
+                continue
+        if any(isinstance(n, (ast.Global, ast.Nonlocal)) and x in n.names for n in nodes):
+            continue
+        val = w.value
+
+        class R(ast.NodeTransformer):
+            def visit_NamedExpr(self, n):
+                if n is w:
+                    return copy.deepcopy(val)
+                self.generic_visit(n)
+                return n
+
+            def visit_Name(self, n):
+                if n.id == x and isinstance(n.ctx, ast.Load):
+                    return _loc(copy.deepcopy(val), n)
+                return n
+
+            def visit_FunctionDef(self, n):
+                return n
+
+            visit_AsyncFunctionDef = visit_Lambda = visit_ClassDef = visit_FunctionDef
+
+        fnode.body = [R().visit(st) for st in fnode.body]
+        ast.fix_missing_locations(fnode)
+        done = True
+    return done
+
+
 def _canon_function(s):
+    _subst_pure_walrus(s)
     return _canon_stmt(s)
 
 
@@ -2210,14 +2317,85 @@ def _canon_stmt(s):
     return s
 
 
+_LOOKUP_SENTINELS = [set()]
+
+
+def lookup_sentinels(tree):
+    """module-level names bound once to `object()` whose every read is an operand of `is` / `is not` or the default
+    argument of a `.get(key, <it>)` call: the object is in no container, so `D.get(k, S) is S` says `k not in D`"""
+    cands = {}
+    for st in tree.body:
+        if isinstance(st, ast.Assign) and len(st.targets) == 1 and isinstance(st.targets[0], ast.Name) and isinstance(st.value, ast.Call) and isinstance(st.value.func, ast.Name) and st.value.func.id == "object" and not st.value.args and not st.value.keywords:
+            cands[st.targets[0].id] = st
+    if not cands:
+        return set()
+    pm = {}
+    for n in ast.walk(tree):
+        for c in ast.iter_child_nodes(n):
+            pm[id(c)] = n
+    bad = set()
+    for n in ast.walk(tree):
+        if isinstance(n, ast.Name) and n.id in cands:
+            if isinstance(n.ctx, (ast.Store, ast.Del)):
+                if n is not cands[n.id].targets[0]:
+                    bad.add(n.id)
+                continue
+            par = pm.get(id(n))
+            if isinstance(par, ast.Compare) and len(par.ops) == 1 and isinstance(par.ops[0], (ast.Is, ast.IsNot)):
+                continue
+            if isinstance(par, ast.Call) and isinstance(par.func, ast.Attribute) and par.func.attr == "get" and len(par.args) == 2 and par.args[1] is n and not par.keywords:
+                continue
+            bad.add(n.id)
+        elif isinstance(n, (ast.Global, ast.Nonlocal)):
+            bad |= set(n.names)
+    return set(cands) - bad
+
+
+def _sentinel_like(name):
+    """a module-level constant by its spelling (ALL_CAPS, possibly private) that is not a local of the function being
+    canonicalised: used as the default of `.get` and compared by identity with the result it is the lookup-sentinel idiom
+    (assumption: the program does not store the sentinel as a value of that very dictionary)"""
+    core = name.lstrip("_")
+    return bool(core) and core.upper() == core and any(c.isalpha() for c in core) and name not in ("None", "True", "False")
+
+
+def _sentinel_lookup(stmts):
+    """`v = D.get(k, S)` + `if v is S: A else: B`  (S a lookup sentinel, v not read in A)  ==  `if k in D: v = D[k]; B else: A`"""
+    S_ = _LOOKUP_SENTINELS[-1]
+    out = list(stmts)
+    i = 0
+    while i + 1 < len(out):
+        a, b = out[i], out[i + 1]
+        if isinstance(a, ast.Assign) and len(a.targets) == 1 and isinstance(a.targets[0], ast.Name) and isinstance(a.value, ast.Call) and isinstance(a.value.func, ast.Attribute) and a.value.func.attr == "get" and len(a.value.args) == 2 and not a.value.keywords and isinstance(a.value.args[1], ast.Name) and (a.value.args[1].id in S_ or _sentinel_like(a.value.args[1].id)) and isinstance(b, ast.If):
+            v, D, k, S = a.targets[0].id, a.value.func.value, a.value.args[0], a.value.args[1].id
+            t = b.test
+            simple = lambda e: isinstance(e, (ast.Name, ast.Constant)) or (isinstance(e, ast.Attribute) and simple(e.value)) or (isinstance(e, ast.Subscript) and isinstance(e.slice, ast.Constant) and simple(e.value))
+            if isinstance(t, ast.Compare) and len(t.ops) == 1 and isinstance(t.ops[0], (ast.Is, ast.IsNot)) and isinstance(t.left, ast.Name) and t.left.id == v and isinstance(t.comparators[0], ast.Name) and t.comparators[0].id == S and simple(D) and simple(k):
+                missing, found = (b.body, b.orelse) if isinstance(t.ops[0], ast.Is) else (b.orelse, b.body)
+                rest = out[i + 2:]
+                reads = lambda sts: any(isinstance(n, ast.Name) and n.id == v and isinstance(n.ctx, ast.Load) for st in sts for n in ast.walk(st))
+                stores_kD = any(isinstance(n, ast.Name) and isinstance(n.ctx, (ast.Store, ast.Del)) and n.id in {x.id for x in ast.walk(k) if isinstance(x, ast.Name)} | {x.id for x in ast.walk(D) if isinstance(x, ast.Name)} for st in [b] for n in ast.walk(st))
+                if not reads(missing) and not stores_kD and (_exits(missing) or not reads(rest)):
+                    test = _loc(ast.Compare(left=copy.deepcopy(k), ops=[ast.In()], comparators=[copy.deepcopy(D)]), t)
+                    fetch = _loc(ast.Assign(targets=[_loc(ast.Name(id=v, ctx=ast.Store()), a)], value=_loc(ast.Subscript(value=copy.deepcopy(D), slice=copy.deepcopy(k), ctx=ast.Load()), a)), a)
+                    new = _loc(ast.If(test=test, body=[fetch] + list(found), orelse=list(missing)), b)
+                    ast.fix_missing_locations(new)
+                    out[i:i + 2] = [new]
+                    continue
+        i += 1
+    return out
+
+
 def canonicalise(tree):
     from .casesplit import split_cases
 
     _SENTINELS.append(module_sentinels(tree))
+    _LOOKUP_SENTINELS.append(lookup_sentinels(tree))
     try:
         return _canonicalise(tree)
     finally:
         _SENTINELS.pop()
+        _LOOKUP_SENTINELS.pop()
 
 
 def _canonicalise(tree):
@@ -2343,7 +2521,16 @@ def _fold_table_comprehensions(tree):
     return tree
 
 
+_CAST_NAMES = [set(), set()]  # names bound to typing.cast / to the typing module in the tree being canonicalised
+
+
 def _canonicalise_once(tree):
+    _CAST_NAMES[0], _CAST_NAMES[1] = set(), set()
+    for n in ast.walk(tree):
+        if isinstance(n, ast.ImportFrom) and n.module in ("typing", "typing_extensions") and n.level == 0:
+            _CAST_NAMES[0] |= {a.asname or a.name for a in n.names if a.name == "cast"}
+        elif isinstance(n, ast.Import):
+            _CAST_NAMES[1] |= {a.asname or a.name for a in n.names if a.name in ("typing", "typing_extensions")}
     tree = _fold_table_comprehensions(tree)
     tree = ExprCanon().visit(tree)
     tree = _Tests().visit(tree)
